@@ -14,8 +14,19 @@ fn polys_json(ps: &[affinitree::linalg::affine::Polytope], q: f64) -> Value {
 
 pub fn run(sc: &Value, id: usize, out: Out) {
     let q = sc.get("q").and_then(|v| v.as_f64()).unwrap_or(1.0);
-    let t: AffTree<2> = build(sc["lhs"].as_array().unwrap());
-    let tj = tree_json(&t, q);
+    let mut t: AffTree<2> = build(sc["lhs"].as_array().unwrap());
+    let exps = crate::afftree::apply_pscale(&mut t, sc.get("pscale").and_then(|v| v.as_str()).unwrap_or(""));
+    let tj = crate::afftree::tree_json_ps(&t, q, &exps);
+    // reported path polytopes are scaled back with the exponent of the decision they come from (path edge j belongs to the j-th node of the path)
+    let unscale = |idx: usize, ps: &[affinitree::linalg::affine::Polytope]| -> Vec<affinitree::linalg::affine::Polytope> {
+        if exps.is_empty() { return ps.to_vec(); }
+        let path = t.tree.path_to_node(idx).unwrap_or_default();
+        ps.iter().enumerate().map(|(j, p)| {
+            let e = path.get(j).and_then(|(n, _)| exps.get(n)).cloned().unwrap_or(0);
+            let f = 2f64.powi(-e);
+            affinitree::linalg::affine::Polytope::from_mats(&p.mat * f, &p.bias * f)
+        }).collect()
+    };
     // schedule: list of "n" / "s" as for the tree cursors; run until the schedule ends, then drain with next()
     let sched: Vec<String> = sc["sched"].as_array().map(|a| a.iter().map(|v| v.as_str().unwrap_or("n").to_string()).collect()).unwrap_or_default();
     // --- PolyhedraGen (polyhedra())
@@ -33,7 +44,7 @@ pub fn run(sc: &Value, id: usize, out: Out) {
             }
             match it.next(&t.tree) {
                 Some((d, ps)) => steps.push(json!({"call": "n", "item": {"none": false, "depth": d.depth, "idx": d.index, "rem": d.n_remaining},
-                                                   "polys": polys_json(ps, q)})),
+                                                   "polys": polys_json(&unscale(d.index, ps), q)})),
                 None => {
                     steps.push(json!({"call": "n", "item": {"none": true}, "polys": []}));
                     break;
